@@ -14,6 +14,18 @@ CLAIMED = {
          'one way: Coq encoder = packb output). F2 (big-endian arrays) fixed in /repo. No axioms.',
     technique='Coq proof (nested induction over pytrees, list/arith lemmas) + per-run byte-exact model-vs-implementation correspondence by vm_compute',
     ref='DESIGN.md section 5, C10'),
+  'C11': dict(
+    text='A directory state machine written from checkpoints.py: structured names (step / tmp / Orbax temporary), natural sort, _check_overwrite_error, the main phase '
+         '(create+write+rename, or mkdir-tmp+fill+rename), _remove_invalid_ckpts (keep, keep_every_n_steps incl. the [:-0] and step-0 quirks, overwrite), every save compiled to '
+         'its list of atomic file-system operations so that a crash is a prefix. Proved for all directories, requests and crash points k: without overwrite the latest checkpoint '
+         'stays complete and is the previous latest or the new one, for whole histories of saves and crashes; temporaries are never listed; latest is the numeric maximum; an existing '
+         'step is rejected with the directory unchanged; the legacy back-end rejects older steps; retention never touches the newest step. Orbax+overwrite of the latest is refuted '
+         '(F14). Tied to /repo per run: save histories with injected crashes on both back-ends; directory snapshots, outcomes, operation kinds, latest and restore compared in Coq.',
+    note='Trusted: Coq kernel, vm_compute, harness (crash injection by interposing flax.io/os/shutil), jaxcompat, orbax, TF gfile. Modelled: rename/remove atomic, rmtree two-step, '
+         'Orbax save = mkdir tmp + write + rename (validated against traced operation kinds each run). Real durability (fsync, power loss, GCS) not exhibited. Steps are scaled to '
+         'integers per history. Known findings F3, F14; F15 fixed. No axioms.',
+    technique='Coq proof (invariants over prefixes of atomic-operation lists and over histories; sorting lemmas) + per-run crash-injection correspondence by vm_compute',
+    ref='DESIGN.md section 5, C11'),
   'C14': dict(
     text='Theorems about hand-written Gallina models of the Linen filter algebra (one fuelled function mirroring union/subtract/intersect_filters, '
          'in_filter, is_filter_empty, group_collections) and of the NNX filter language with the first-match split loop: soundness and totality of the three '
